@@ -77,7 +77,7 @@ func newWorker(id int, prog *ssa.Program, cfg *runConfig) (*worker, error) {
 func (w *worker) runPath(j *job, it *workItem) {
 	in := w.in
 	// keep the term table and the solver's declarations bounded
-	if len(in.tt.all) > 400000 {
+	if len(in.tt.all) > 100000 {
 		in.tt = newTermTable()
 		in.atomCache = nil
 		in.consts = map[*ssa.Const]value{}
@@ -224,6 +224,17 @@ func (in *interp) panicString(v value) string {
 // runJob explores one harness to completion (or budget).
 func runJob(j *job, workers []*worker, cfg *runConfig) {
 	cfg.curJob = j
+	// fresh term tables and solver processes per harness: declarations of
+	// earlier harnesses would only slow the solver down
+	for _, w := range workers {
+		in := w.in
+		in.tt = newTermTable()
+		in.atomCache = nil
+		in.consts = map[*ssa.Const]value{}
+		if in.solver.stats.Queries > 0 {
+			in.solver.Restart()
+		}
+	}
 	j.rng = uint64(cfg.seed)*2654435761 + 88172645463325252
 	deadline := time.Now().Add(cfg.harnessBudget)
 	var wg sync.WaitGroup
